@@ -16,6 +16,7 @@ from core import Harness
 from props.eval_common import MemLog, MutationOnlyRep, Recording, ScriptRep, as_int, logging_ff, mk_ind, uid
 
 from geneticengine.algorithms.gp.gp import GeneticProgramming, default_generic_programming_step
+from geneticengine.algorithms.gp.structure import GeneticStep
 from geneticengine.algorithms.gp.operators.combinators import ParallelStep, SequenceStep
 from geneticengine.algorithms.gp.operators.crossover import GenericCrossoverStep
 from geneticengine.algorithms.gp.operators.elitism import ElitismStep
@@ -54,13 +55,28 @@ def nontrivial_history(vals):
 # trackers on scripted histories
 # ----------------------------------------------------------------------------------------
 
-def run_single(vals, minimize, batching, repeats=None):
+_OTHER_PROBLEMS: list = []   # earlier problems stay alive (the individuals' fitness stores are weak-keyed)
+
+
+def pre_evaluate(inds, multi: bool):
+    """the individuals have a history: they were scored on ANOTHER problem before (hold-out set, previous stage)
+    whose ranking is the reverse of the one the tracker will see"""
+    other = (MultiObjectiveProblem([True, False], lambda ph: [float(ph[1]) + 1, float(-ph[1])]) if multi
+             else SingleObjectiveProblem(lambda ph: float(-3 * ph[1] - 1), minimize=False))
+    _OTHER_PROBLEMS.append(other)
+    del _OTHER_PROBLEMS[:-50]
+    SequentialEvaluator().evaluate(other, inds)
+
+
+def run_single(vals, minimize, batching, repeats=None, pre=False):
     """Feed the values to a real single-objective tracker. `repeats`: list of positions; entry k of the
     presentation order is the individual created for position repeats[k] (re-presentation)."""
     rec = Recording()
     problem = SingleObjectiveProblem(lambda ph: ph[1], minimize=minimize)
     tracker = SingleObjectiveProgressTracker(problem, SequentialEvaluator(), recorders=[rec])
     inds = [mk_ind(i, v) for i, v in enumerate(vals)]
+    if pre:
+        pre_evaluate(inds, False)
     order = [inds[i] for i in (repeats if repeats is not None else range(len(vals)))]
     if batching == "one-by-one":
         for ind in order:
@@ -97,8 +113,9 @@ def check_single_histories(h: Harness):
             for minimize in (False, True):
                 batching = ("one-by-one", "batch", "single")[k % 3]
                 k += 1
-                rec, _ = run_single(vals, minimize, batching)
-                judge_single(h, site, rec, minimize, f"history {list(vals)} ({batching})")
+                pre = k % 4 == 1
+                rec, _ = run_single(vals, minimize, batching, pre=pre)
+                judge_single(h, site, rec, minimize, f"history {list(vals)} ({batching}" + (", individuals scored on another problem before)" if pre else ")"))
         h.count(f"single:len{n}", 2 * 3 ** n)
     # re-presented individuals and longer histories over a wider range
     rng = h.rng
@@ -175,7 +192,7 @@ def check_scale_invariance(h: Harness):
     h.count("scale-invariance-histories")
 
 
-def run_multi(aggs, variant, batching, repeats=None):
+def run_multi(aggs, variant, batching, repeats=None, pre=False):
     """Two objectives (first maximised, second minimised): components (a + d, d) have default aggregate a."""
     rec = Recording()
     if variant == "default":
@@ -186,6 +203,8 @@ def run_multi(aggs, variant, batching, repeats=None):
         problem = MultiObjectiveProblem([False, False], lambda ph: [ph[1], 7 - ph[0]], aggregate_fitness=lambda comps: comps[0])
     tracker = MultiObjectiveProgressTracker(problem, SequentialEvaluator(), recorders=[rec])
     inds = [mk_ind(i, v) for i, v in enumerate(aggs)]
+    if pre:
+        pre_evaluate(inds, True)
     order = [inds[i] for i in (repeats if repeats is not None else range(len(aggs)))]
     if batching == "one-by-one":
         for ind in order:
@@ -215,8 +234,9 @@ def check_multi_histories(h: Harness):
             variant = ("default", "bool", "user")[k % 3]
             batching = ("one-by-one", "batch")[(k // 3) % 2]
             k += 1
-            rec, _ = run_multi(aggs, variant, batching)
-            judge_multi(h, site, rec, f"aggregate history {list(aggs)} ({variant} aggregate, {batching})")
+            pre = k % 4 == 1
+            rec, _ = run_multi(aggs, variant, batching, pre=pre)
+            judge_multi(h, site, rec, f"aggregate history {list(aggs)} ({variant} aggregate, {batching}" + (", individuals scored on another problem before)" if pre else ")"))
         h.count(f"multi:len{n}", 3 ** n)
     rng = h.rng
     for _ in range(h.n(150, 1500)):
@@ -343,6 +363,19 @@ def check_searches(h: Harness):
                         break
 
 
+class TapStep(GeneticStep):
+    """the real step, unchanged; remembers the uid of every individual it yields (the members of the generations)"""
+
+    def __init__(self, inner):
+        self.inner = inner
+        self.members: set = set()
+
+    def iterate(self, problem, evaluator, representation, random, population, target_size, generation):
+        for ind in self.inner.apply(problem, evaluator, representation, random, population, target_size, generation):
+            self.members.add(uid(ind))
+            yield ind
+
+
 def check_gp_in_step_evaluation(h: Harness):
     """GP steps receive the bare evaluator.  A composition that varies first and selects afterwards evaluates
     offspring (counted against the budget) that may never be handed to the tracker: open finding, re-confirmed here."""
@@ -358,8 +391,9 @@ def check_gp_in_step_evaluation(h: Harness):
         stepname, step = rng.choice([("SequenceStep(GenericMutationStep(1), TournamentSelection(2))", lambda: SequenceStep(GenericMutationStep(1), TournamentSelection(2))),
                                      ("SequenceStep(TournamentSelection(2), GenericMutationStep(1), ElitismStep())",
                                       lambda: SequenceStep(TournamentSelection(2), GenericMutationStep(1), ElitismStep()))])
+        tap = TapStep(step())
         gp = GeneticProgramming(problem, EvaluationBudget(n), ScriptRep(keys), NativeRandomSource(rng.randrange(10**6)), tracker,
-                                population_size=pop, step=step())
+                                population_size=pop, step=tap)
         try:
             ret = gp.search()
         except Exception as e:  # noqa: BLE001
@@ -374,9 +408,15 @@ def check_gp_in_step_evaluation(h: Harness):
         if better:
             u, v = better[0]
             tracked = [(u, v) for (u, v) in better if u in handed]
+            # a member of a generation (something the step yielded) that the tracker never got to see: NOT the open finding,
+            # which is about offspring evaluated inside a step and dropped by it
+            members = [(u, v) for (u, v) in better if u in tap.members and u not in handed]
             if tracked:
                 u, v = tracked[0]
-            h.fail(site, "individual-handed-to-the-tracker-better-than-returned" if tracked else "evaluated-individual-better-than-returned",
+            elif members:
+                u, v = members[0]
+            h.fail(site, "individual-handed-to-the-tracker-better-than-returned" if tracked else
+                   ("generation-member-better-than-returned-never-reached-the-tracker" if members else "evaluated-individual-better-than-returned"),
                    f"GeneticProgramming(EvaluationBudget({n}), population_size={pop}, step={stepname}): "
                    f"individual uid {u} was evaluated (counted) with fitness {v} but search() returned uid {uid(ret)} with fitness {rv}; "
                    f"uid {u} {'was' if u in handed else 'was never'} handed to the tracker ({len(evaluated)} evaluated, {len(handed)} handed to the tracker, "
